@@ -79,7 +79,7 @@ func init() {
 			return out
 		},
 		boundsText: map[string]string{
-			"quick":    "values: every exported Stack/Condition method x a catalogue of 30 values for each `any` argument (variadics of length 0..1 quick / 0..2 thorough), option bits clear, kinds AND and LIST on initialised receivers with nested content; indices: stack length n<=4 (spare capacity<=1 for n<=2), Traverse path length<=3, constructor capacity argument<=64; every int argument, option bits, kind, FIFO flag, capacity field: all values",
+			"quick":    "values: every exported Stack/Condition method x a catalogue of 35 values for each `any` argument (variadics of length 0..1 quick / 0..2 thorough), option bits clear, kinds AND and LIST on initialised receivers with nested content; indices: stack length n<=4 (spare capacity<=1 for n<=2), Traverse path length<=3, constructor capacity argument<=64; every int argument, option bits, kind, FIFO flag, capacity field: all values",
 			"thorough": "stack length n<=6 (spare capacity<=2 for n<=4), Traverse path length<=3, constructor capacity argument<=64; every int argument, option bits, kind, FIFO flag, capacity field: all values",
 		},
 		outside: "stacks longer than the bound; constructor capacities above 64 (allocation size only); element values outside the harness catalogue",
@@ -269,7 +269,7 @@ func init() {
 			return out
 		},
 		boundsText: map[string]string{
-			"quick":    "every exported method of Stack, Condition, Auxiliary and every exported package-level function of the tree under test (enumerated from go/types at run time) x receiver states {zero value, freed, Init()-only Condition, nil Auxiliary} x argument variants (ints/bools: all values; strings: 4; any: catalogue of 30 awkward values; variadics of length 0..2; closures nil/inert); Reset/Free on arbitrary stacks of length<=3 with nil elements",
+			"quick":    "every exported method of Stack, Condition, Auxiliary and every exported package-level function of the tree under test (enumerated from go/types at run time) x receiver states {zero value, freed, Init()-only Condition, nil Auxiliary} x argument variants (ints/bools: all values; strings: 4; any: catalogue of 35 awkward values; variadics of length 0..2; closures nil/inert); Reset/Free on arbitrary stacks of length<=3 with nil elements",
 			"thorough": "as quick with Reset/Free on lengths<=5",
 		},
 		outside: "argument values outside the catalogue; string results are not constrained (documented sentinels such as <invalid_stack>, unspecified, uninitialized)",
@@ -327,9 +327,9 @@ func init() {
 		id: "C11",
 		gen: func(tier string, seed int) []symx.CaseSpec {
 			var out []symx.CaseSpec
-			variants := []int{0, 3}
+			variants := []int{0, 3, 8}
 			if tier == "thorough" {
-				variants = []int{0, 1, 2, 3, 4, 7}
+				variants = []int{0, 1, 2, 3, 4, 7, 8, 10}
 			}
 			for i, n := range auto.Stack {
 				if isMut("Stack." + n) {
@@ -436,6 +436,9 @@ func init() {
 				out = append(out, cs("VH_C14_StackClosures", k))
 			}
 			out = append(out, cs("VH_C14_CondClosures"))
+			for k := 0; k <= 3; k++ {
+				out = append(out, cs("VH_C14_CondValidityDecides", k))
+			}
 			return out
 		},
 		boundsText: map[string]string{
@@ -524,7 +527,7 @@ func init() {
 			out = append(out, cs("VH_C20", 3, 2, 0, 1, 1, 0, 3, 0, 1, 1, 0, 3, 0, 1, 1, 0, 0))
 			out = append(out, cs("VH_C20", 3, 2, 0, 1, 1, 0, 5, 0, 1, 1, 0, 2))
 			out = append(out, cs("VH_C20", 2, 2, 3, 1, 1, 0, 3, 0, 1, 0, 0, 0))
-			for k := 0; k <= 5; k++ {
+			for k := 0; k <= 7; k++ {
 				out = append(out, cs("VH_C20_Named", k))
 			}
 			n := q(tier, 120, 1500)
@@ -544,7 +547,7 @@ func init() {
 			return out
 		},
 		boundsText: map[string]string{
-			"quick":    "6 hand-built shapes (folded / symbol-bearing NOT wrappers, mutex-enabled envelopes at every slot, chains; parenthetical bits symbolic) + 3 hand-picked + 120 seeded trees of depth<=3, width<=3 (single-child chains favoured) over AND/OR/NOT/LIST with text/int leaves, Conditions holding text or Stacks, empty stacks, mutex-enabled nodes, case-folded and symbol-bearing nodes; the parenthetical bit of every Stack and Condition and the index-option bits of every Stack are solver variables",
+			"quick":    "8 hand-built shapes (folded / symbol-bearing NOT wrappers, mutex-enabled envelopes at every slot, chains; parenthetical bits symbolic) + 3 hand-picked + 120 seeded trees of depth<=3, width<=3 (single-child chains favoured) over AND/OR/NOT/LIST with text/int leaves, Conditions holding text or Stacks, empty stacks, mutex-enabled nodes, case-folded and symbol-bearing nodes; the parenthetical bit of every Stack and Condition and the index-option bits of every Stack are solver variables",
 			"thorough": "3 hand-picked + 1500 seeded trees of depth<=4",
 		},
 		outside: "trees outside the sampled shapes; aliases as nodes (C12)",
@@ -618,7 +621,7 @@ func init() {
 		id: "C12",
 		gen: func(tier string, seed int) []symx.CaseSpec {
 			var out []symx.CaseSpec
-			for k := 0; k <= 13; k++ {
+			for k := 0; k <= 18; k++ {
 				out = append(out, cs("VH_C12_Convert", k))
 			}
 			// hand-picked: a condition whose expression is a stack alias; nested stack; nested condition
@@ -638,7 +641,7 @@ func init() {
 			return out
 		},
 		boundsText: map[string]string{
-			"quick":    "ConvertStack/ConvertCondition on 14 value forms; 3 hand-picked + 40 seeded trees of depth<=2, width<=3 in which up to 3 nested Stacks/Conditions are each independently native / alias / alias with String / pointer to alias (all 4^k combinations by fork); Traverse paths of length 1-3 with unconstrained indices",
+			"quick":    "ConvertStack/ConvertCondition on 19 value forms (incl. pointers to zero-valued aliases, double pointers) and holders of such values; 3 hand-picked + 40 seeded trees of depth<=2, width<=3 in which up to 3 nested Stacks/Conditions are each independently native / alias / alias with String / pointer to alias (all 4^k combinations by fork); Traverse paths of length 1-3 with unconstrained indices",
 			"thorough": "as quick with 400 seeded trees",
 		},
 		outside: "aliases deeper than the third nested position of a tree (kept native); trees outside the sample",
